@@ -57,11 +57,11 @@ _VAL = re.compile(r"%[\w#]+")
 
 SHAPES = (["cc_int"] * 10 + ["cc_flt"] * 6 + ["cc_cmp"] * 5 + ["ident"] * 10 + ["same"] * 7 + ["select"] * 6 +
           ["chain"] * 5 + ["dup"] * 12 + ["fconsts"] * 5 + ["iconsts"] * 2 + ["mem"] * 8 + ["call"] * 4 +
-          ["while"] * 2 + ["effect"] * 4 + ["cast"] * 4 + ["guarded_cc"] * 5)
+          ["while"] * 2 + ["effect"] * 4 + ["cast"] * 4 + ["guarded_cc"] * 5 + ["cc_addi"] * 3)
 
 
 class Gen14(Gen):
-    def __init__(self, rng, p_directed=0.5, no_var_addi=False, helpers=(), memrefs=True, **kw):
+    def __init__(self, rng, p_directed=0.5, no_var_addi=False, helpers=(), memrefs=True, addi_focus=0, **kw):
         kw.setdefault("effects", True)
         super().__init__(rng, **kw)
         self.p_directed = p_directed
@@ -71,6 +71,7 @@ class Gen14(Gen):
         self.helpers = list(helpers)  # (name, argtypes, rettype)
         self.memrefs = memrefs
         self.shape_count = {}
+        self.shapes = SHAPES + ["cc_addi"] * addi_focus
 
     # ------------------------------------------------------------------ helpers
     def prelude(self):
@@ -132,7 +133,7 @@ class Gen14(Gen):
     def stmt(self, env, lines, ind, depth):
         if self.rng.random() >= self.p_directed:
             return super().stmt(env, lines, ind, depth)
-        shape = self.rng.choice(SHAPES)
+        shape = self.rng.choice(self.shapes)
         self.shape_count[shape] = self.shape_count.get(shape, 0) + 1
         getattr(self, "s_" + shape)(env, lines, ind, depth)
 
@@ -151,6 +152,20 @@ class Gen14(Gen):
         a = self.cint(t, av, lines, ind)
         b = self.cint(t, bv, lines, ind)
         self.emit(env, lines, ind, f"arith.{opn} {a}, {b} : {t}", t)
+
+    def s_cc_addi(self, env, lines, ind, depth):
+        """addi of constants (the only thing the two test folding passes fold), also chained"""
+        rng = self.rng
+        t = self.int_t()
+        w = W[t]
+        pool = [0, 1, -1, 2, 5, 100, (1 << (w - 1)) - 1, -(1 << (w - 1)), (1 << w) - 1, -(1 << (w - 1)) + 1]
+        a = self.cint(t, rng.choice(pool), lines, ind)
+        b = self.cint(t, rng.choice(pool), lines, ind)
+        x = self.emit(env, lines, ind, f"arith.addi {a}, {b} : {t}", t)
+        for _ in range(rng.choice([0, 0, 1, 2])):
+            c = self.cint(t, rng.choice(pool), lines, ind)
+            x = self.emit(env, lines, ind, f"arith.addi {x}, {c} : {t}" if rng.random() < 0.6 else
+                          f"arith.addi {c}, {x} : {t}", t)
 
     def s_guarded_cc(self, env, lines, ind, depth):
         """constant-constant op that may be UB / poison, executed only on some inputs"""
